@@ -5,7 +5,10 @@ RULE = ("MC: QueueMC (lease + operator families, 2 lease epochs per message) wit
         "only a message whose CURRENT lease id was presented, an expired one is only requeued) and FailureIsNoop; GEN: every edge of the "
         "bounded abstract graph in which leases are named symbolically (epoch e of message m, unknown, blank, duplicate in a batch) so that "
         "ids of every earlier epoch are presented after expiry, re-dequeue, cancel, requeue; seeded 'lease' driver with padded / blank / "
-        "unknown / old-epoch ids, single and batch; executed on memory and SQLite; every event validated by TLC (QueueTrace). "
+        "unknown / old-epoch ids, single and batch; executed on memory and SQLite; every event validated by TLC (QueueTrace). L1: the same "
+        "lease-heavy schedules THROUGH the Pull API (HTTP) and Worker API (gRPC) of production-wired instances, validated by PullTrace.tla: "
+        "204 / 200 / 409 / FailedPrecondition / conflicts-in-body mapping, effect iff current unexpired lease, and the only success of a stale "
+        "call is the idempotent answer to a duplicate of an ack (or nack / dead-letter) that succeeded - with no effect. "
         "distinct_nontrivial = validated events.")
 PROPS = ["LeaseFence", "FailureIsNoop", "LeaseExclusive", "Conservation"]
 
@@ -23,7 +26,8 @@ def run(ctx):
                 "gen": [("fence", c, dict(family=("lease", "leasebatch", "operator"), horizon=20, maxep=2, maxins=2, pick="insertion"), 1),
                         ("fence_deliv", deliv, dict(family=("lease", "leasebatch", "operator"), horizon=20, maxep=2, maxins=1, pick="insertion", ttls=(10,)), 1)],
                 "drv": [("lease", "lease", 4000, 90, {})]}
-    q.run_plan(ctx, plan, RULE, assumptions=["HTTP / gRPC status mapping of conflicts and the idempotent duplicate answer are covered by the L1 part (PullApi) when built; this check is the store-level part"])
+    q.pull_part(ctx, 60 if ctx.quick else 1500, 60, 0)
+    q.run_plan(ctx, plan, RULE, assumptions=["the idempotency cache TTL is wall-clock time: it is exercised in two modes, never expiring (1 h) and always expired (1 ns)"])
     nstale = 0
     # non-vacuity: stale presentations must have happened (counted from the driver's trace is costly; the generator guarantees them:
     # LeaseSingle enumerates refs with epoch <= ep+1 and LeaseBatchAct pairs of refs)
